@@ -16,7 +16,10 @@ RULE = ("correspondence: (i) the event stream of the real html.parser, recorded 
         "non-trivial = tree with >= 3 elements or an end tag that does not match the open element")
 TRUSTED = ["coq/Html/HtmlModel.v is a hand transcription of Tree/HtmlToAst/Element (checked by correspondence, not proved)",
            "html.parser.HTMLParser is an oracle: its event stream enters the theorems as the function `parse` with hypothesis O_htmlparser_events",
-           "gen/c16_html.py translates the render() f-string templates, Attribute.__str__, void_elements and the handler->class table"]
+           "gen/c16_html.py translates the render() f-string templates, Attribute.__str__, void_elements and the handler->class table",
+           "gen/pysrc.py + gen/c16_src.py (statement-by-statement source translation) and the domain mapping coq/Html/SrcPrims.v: "
+           "objects = store ids, self.stack = t_stack, for-loops = sequential iteration in the exception monad, MutableSequence.append "
+           "= insert(len(self), .), TerminalElement overrides deepcopy, the two text-matched statements of Element.find"]
 ORACLES = {
     "O_htmlparser_events": "HTMLParser.feed(print h) emits exactly events_of h for every wf h: checked on all wf documents with "
                            "<= 3 (quick) / <= 4 (thorough) nodes over a vocabulary covering every construct, and on random large ones",
@@ -34,6 +37,10 @@ def gen(ctx):
     write_if_changed(COQ / "Gen" / "Html.v", text)
     ctx.gen_info["sources"] = src_hashes(SOURCES)
     ctx.gen_info["Gen/Html.v"] = info
+    from gen import c16_src
+    text, info = c16_src.generate(REPO)
+    write_if_changed(COQ / "Gen" / "HtmlSrc.v", text)
+    ctx.gen_info["Gen/HtmlSrc.v"] = info
 
 
 # ------------------------------------------------------------------ the implementation, instrumented
